@@ -321,6 +321,9 @@ func scenarios() []scenario {
 		mk("reorg-invalid-vs-remove", big, []opT{{"add", 0, 0, feeLo, 0}, {"add", 0, 1, feeLo + 9, 1}}, []opT{{Kind: "reorg"}}, []opT{{"remove", 0, 0, feeLo, 0}, {"get", 0, 1, feeLo + 9, 1}}),
 		mk("add-at-capacity-vs-get", conc.PoolCfg{Max: 1, PerSender: 1, ReplaceDiff: 1}, []opT{{"add", 0, 0, feeLo, 0}}, []opT{{"add", 1, 0, feeHi, 0}}, []opT{{"get", 0, 0, feeLo, 0}}),
 		// reorg starts one goroutine per sender list in Go map order, which the scheduler cannot own: scenarios with reorg use one sender
+		// a processable transaction disappears (block applied / replaced) while reorg verifies the next promotable one
+		mk("reorg-vs-remove-of-processable", conc.PoolCfg{Max: 4, PerSender: 3, ReplaceDiff: 1}, []opT{{"add", 0, 0, feeLo, 0}, {"add", 0, 1, feeLo, 0}, {Kind: "reorg"}, {"add", 0, 2, feeLo, 0}}, []opT{{Kind: "reorg"}}, []opT{{"remove", 0, 1, feeLo, 0}}),
+		mk("reorg-vs-replace-of-processable", conc.PoolCfg{Max: 4, PerSender: 3, ReplaceDiff: 1}, []opT{{"add", 0, 0, feeLo, 0}, {"add", 0, 1, feeLo, 0}, {Kind: "reorg"}, {"add", 0, 2, feeLo, 0}}, []opT{{Kind: "reorg"}}, []opT{{"add", 0, 1, feeHi, 0}}),
 		mk("reorg-vs-reorg-vs-add", big, []opT{{"add", 0, 0, feeLo, 0}}, []opT{{Kind: "reorg"}}, []opT{{Kind: "reorg"}}, []opT{{"add", 0, 1, feeLo, 0}}),
 	}
 }
